@@ -332,6 +332,12 @@ func (m *memoryEvictor) calculateReleaseByAllocatableThresholdPercent(thresholdC
 	}
 	resourceOnNode := node.Status.Allocatable
 	for rt, rq := range requestedOnNode {
+		// currently only support koord-batch/koord-mid: a target in any other resource (the plain memory requested
+		// by pods of other priority classes) could never be covered, because calculateFunc below credits nothing
+		// to the pods that request it, and every candidate would be evicted
+		if _, ok := apiext.ReverseResourceNameMap[rt]; !ok {
+			continue
+		}
 		nq, ok := resourceOnNode[rt]
 		if !ok || nq.IsZero() {
 			overall[rt] = rq
